@@ -91,6 +91,13 @@ Definition xcorr_spec (t1 t2 : list Z) (b w : Z) : list nat :=
   map (fun j => lag_count t1 t2 (- (nb * b) + 2 * Z.of_nat j * b) (- (nb * b) + 2 * (Z.of_nat j + 1) * b))
       (seq 0 (Z.to_nat nb)).
 
+(* the same histogram, read off the bin centres: the integer multiples c = k*b of the bin size with |c| <= w,
+   each with the number of pairs whose lag lies in [c - b/2, c + b/2) *)
+Definition xcorr_hist (t1 t2 : list Z) (b w : Z) : list (Z * nat) :=
+  let m := w / b in
+  map (fun j => let c := (Z.of_nat j - m) * b in (c, lag_count t1 t2 (2 * c - b) (2 * c + b)))
+      (seq 0 (Z.to_nat (2 * m + 1))).
+
 (* ---- normalisation, as rationals.  b in ticks (1e9 ticks = 1 s) ---- *)
 Definition ticks_per_s : Z := 1000000000.
 (* C / (nt1 * binsize[s])  in Hz *)
